@@ -28,7 +28,7 @@ def run(pid="all"):
                 if res["violated"]:
                     hit = (pool["name"], res["violated"], res.get("depth"))
                     break
-            expect(f"SmoothmathMC with {mut} = FALSE yields a counterexample", hit is not None, str(hit))
+            expect(f"SmoothmathMC mutant configuration {mut} yields a counterexample", hit is not None, str(hit))
         for mut in ("KeysFromSorted", "FoldOnlyOnce", "ChildrenAsSet"):
             res = tlcrun.run("Determinism", f"Determinism_mut_{mut}.cfg", workers=4, timeout=300, expect_violation=True)
             expect(f"Determinism with {mut} = TRUE violates OrderInsensitive", bool(res["violated"]), str(res["violated"]))
